@@ -346,6 +346,7 @@ class JinjaInterp:
         self.cur_macro: str = "<top>"
         self.cur_facts: frozenset[str] = frozenset()
         self.ordinals: dict[tuple, int] = {}
+        self.block_args: dict[tuple, AV] = {}   # (block id, position | name) -> what `caller(...)` is given
         self.top_states: dict[str, str] = {}
         self._collect_bridge()
 
@@ -681,18 +682,22 @@ class JinjaInterp:
             return state
         if isinstance(n, nodes.If):
             t_env, f_env = self.narrow(n.test, env)
-            self.ev(n.test, env)
+            self.ev_truth(n.test, env)
             ends = []
             e1 = dict(t_env)
             g0 = len(self.guards)
             self.guards.append(("node", n.test))
-            ends.append(self.block(n.body, e1, state))
+            if self._definedness(n.test, env) is False and not n.elif_:
+                # `{% if NAME is defined %}` with NAME bound nowhere on the way here: the branch is not rendered
+                ends.append(state)
+            else:
+                ends.append(self.block(n.body, e1, state))
             del self.guards[g0:]
             envs = [e1]
             cur_f = f_env
             negs = [("not", ("node", n.test))]
             for el in n.elif_:
-                self.ev(el.test, cur_f)
+                self.ev_truth(el.test, cur_f)
                 t2, f2 = self.narrow(el.test, cur_f)
                 e2 = dict(t2)
                 self.guards += negs + [("node", el.test)]
@@ -849,8 +854,12 @@ class JinjaInterp:
             # macro prints it, in the lexical state of that place.
             bid = f"{ti.name}:{self.cur_macro}:call:{n.lineno}"
             benv = dict(env)
-            for a in n.args:  # `{% call(x) m() %}`: what the macro passes to caller(x) is not tracked
-                benv[a.name] = typed("Any", labels=[UNKNOWN])
+            # `{% call(x, y) m() %}`: inside the body x, y are what m hands to `caller(a, b)` - the join over every caller(...) evaluated
+            # with this block (recorded by call(), iterated by the fixpoint); until one has been seen the parameter is unknown
+            for i, a in enumerate(n.args):
+                got = self.block_args.get((bid, i))
+                got = join(got, self.block_args.get((bid, a.name)))
+                benv[a.name] = got if got is not None and not got.is_bottom else typed("Any", labels=[UNKNOWN])
             self.blocks[bid] = (n, benv, ti, self.cur_macro)
             acc: set[str] = set()
             saved_acc = getattr(self, "_macro_label_acc", None)
@@ -910,6 +919,12 @@ class JinjaInterp:
             ends_b = set()
             for _k, bid in blocks:
                 bn, benv, bt, bm = self.blocks[bid]
+                if isinstance(bn, nodes.CallBlock) and bn.args:
+                    benv = dict(benv)
+                    for i, a in enumerate(bn.args):
+                        got = join(self.block_args.get((bid, i)), self.block_args.get((bid, a.name)))
+                        if got is not None and not got.is_bottom:
+                            benv[a.name] = got
                 # the body's holes belong to the template / macro the block is written in (keys do not move when a block is handed to
                 # a macro and printed there); the lexical state and the facts are those of the place where it is printed
                 saved_tm = (self.cur_t, self.cur_macro)
@@ -1059,6 +1074,39 @@ class JinjaInterp:
         return self.ix.const_str(cv[0].module, cv[1])
 
     # ------------------------------------------------------------------ expressions
+    @staticmethod
+    def _definedness(test: nodes.Node, env: dict[str, AV]) -> "bool | None":
+        """the value of a test that only asks whether a name is bound (`x is defined`, `x is undefined`, `not ...`), when the
+        environment decides it (only `unbound` is decided: a bound name may still hold jinja's Undefined)"""
+        if isinstance(test, nodes.Not):
+            v = JinjaInterp._definedness(test.node, env)
+            return None if v is None else not v
+        if isinstance(test, nodes.Test) and test.name in ("defined", "undefined") and isinstance(test.node, nodes.Name) and \
+                test.node.name not in env and test.node.name not in ("loop", "caller", "varargs", "kwargs", "self"):
+            return test.name == "undefined"
+        return None
+
+    def ev_truth(self, n: nodes.Node, env: dict[str, AV]) -> AV:
+        """n evaluated for its truth only (the test of an `if` / conditional expression, operands of and / or / not in one, `x is
+        defined`): a name that is not defined is simply false there (jinja2's default Undefined raises only when it is called,
+        subscripted or has an attribute read) - it is not recorded as a dereference of an undefined name"""
+        if isinstance(n, nodes.Not):
+            self.ev_truth(n.node, env)
+            return num(None, "bool")
+        if isinstance(n, (nodes.And, nodes.Or)):
+            self.ev_truth(n.left, env)
+            self.ev_truth(n.right, env)
+            return num(None, "bool")
+        if isinstance(n, nodes.Test) and n.name in ("defined", "undefined", "none") and isinstance(n.node, nodes.Name) and n.node.name not in env:
+            return num(None, "bool")
+        if isinstance(n, nodes.Name) and n.name not in env:
+            saved = dict(self.undefined_names)
+            v = self.ev(n, env)
+            self.undefined_names.clear()
+            self.undefined_names.update(saved)
+            return v
+        return self.ev(n, env)
+
     def ev(self, n: nodes.Node | None, env: dict[str, AV]) -> AV:
         if n is None:
             return BOTTOM
@@ -1114,7 +1162,7 @@ class JinjaInterp:
             return num(None, "bool")
         if isinstance(n, nodes.CondExpr):
             t_env, f_env = self.narrow(n.test, env)
-            self.ev(n.test, env)
+            self.ev_truth(n.test, env)
             a = self.ev(n.expr1, t_env)
             b = self.ev(n.expr2, f_env) if n.expr2 is not None else BOTTOM
             return join(a, b)
@@ -1201,7 +1249,14 @@ class JinjaInterp:
         args = [self.ev(a, env) for a in n.args]
         kwargs = {k.key: self.ev(k.value, env) for k in n.kwargs}
         if f.funcs and all(x[0] == "block" for x in f.funcs):
-            return f  # `caller()` inside a macro invoked by `{% call %}`: the caller's block, emitted where this call is printed
+            # `caller(a, b)` inside a macro invoked by `{% call(x, y) %}`: the caller's block, emitted where this call is printed, with
+            # its parameters bound to a, b
+            for _k, bid in f.funcs:
+                for i, v in enumerate(args):
+                    self._set(self.block_args, (bid, i), v)
+                for k, v in kwargs.items():
+                    self._set(self.block_args, (bid, k), v)
+            return f
         where = f"{ti.name}:{n.lineno}"
         out = BOTTOM
         alias0 = n.node.node.name if isinstance(n.node, nodes.Getattr) and isinstance(n.node.node, nodes.Name) else ""
